@@ -62,10 +62,10 @@ theorem insideRun_false_iff (st : Stage) : st.insideRun = false ↔ st = .ctor :
 theorem handleSolution_cases (a : Bool) (w : Nat) (out : OutPath) (f : SolFile) :
     (wantsFile a w = true ∧ out.writable = false ∧ handleSolution a w out f = none) ∨
     (wantsFile a w = true ∧ out.writable = true ∧
-      handleSolution a w out f = some (.sol f (!a && !suppressMsg w))) ∨
+      handleSolution a w out f = some (.sol { f with complete := true } (!a && !suppressMsg w))) ∨
     (wantsFile a w = false ∧ handleSolution a w out f = some (.stdoutOnly f.code (!suppressMsg w))) := by
-  unfold handleSolution
-  cases hw : wantsFile a w <;> cases ho : out.writable <;> simp
+  unfold handleSolution handleSolutionW OutPath.writable
+  cases hw : wantsFile a w <;> cases hco : out.canOpen <;> cases hcf : out.canFlush <;> simp [writerChecksClose]
 
 /-- `reportError` on a non-foreign exception. -/
 theorem reportError_cases (a : Bool) (w : Nat) (out : OutPath) (h : Bool) (d : Dims) (x : Exn)
@@ -205,8 +205,8 @@ theorem conclude_finished (sc : Scenario) (a : Bool) (w : Nat) :
         if sc.out.writable then .sol (okFile sc true) (!a && !suppressMsg w)
         else .stderrExit 1
       else .stdoutOnly sc.answer.code (!suppressMsg w) := by
-  cases hw : wantsFile a w <;> cases ho : sc.out.writable <;>
-    simp [conclude, writeOrRetry, handleSolution, hw, ho, reportError, orStderr, okFile]
+  cases hw : wantsFile a w <;> cases hco : sc.out.canOpen <;> cases hcf : sc.out.canFlush <;>
+    simp [conclude, writeOrRetry, handleSolution, handleSolutionW, hw, hco, hcf, OutPath.writable, writerChecksClose, reportError, orStderr, okFile]
 
 /-- Normal form of `conclude` on a run ended by a (non-foreign) exception. -/
 theorem conclude_raised (sc : Scenario) (a : Bool) (w : Nat) (st : Stage) (r : Raise) (hr : r ≠ .foreign) :
@@ -226,8 +226,9 @@ theorem conclude_raised (sc : Scenario) (a : Bool) (w : Nat) (st : Stage) (r : R
   cases hi : st.insideRun
   · cases hx : r.toExn <;> simp [conclude, fail, hi, hx, rbaOutcome]
     exact absurd hx hf
-  · cases hh : st.handlerAvailable <;> cases hw : wantsFile a w <;> cases ho : sc.out.writable <;>
-      simp [conclude, fail, hi, reportError_cases _ _ _ _ _ _ hf, hh, handleSolution, hw, ho, orStderr, errFile, errDims]
+  · cases hh : st.handlerAvailable <;> cases hw : wantsFile a w <;> cases hco : sc.out.canOpen <;> cases hcf : sc.out.canFlush <;>
+      simp [conclude, fail, hi, reportError_cases _ _ _ _ _ _ hf, hh, handleSolution, handleSolutionW, hw, hco, hcf, OutPath.writable, writerChecksClose,
+        orStderr, errFile, errDims]
 
 theorem conclude_foreign (sc : Scenario) (a : Bool) (w : Nat) (st : Stage) :
     conclude sc (.raised a w st .foreign) = .crash := by
@@ -238,7 +239,9 @@ def Regular (sc : Scenario) (e : Ending) : Prop :=
   match e with
   | .info => True
   | .exported _ _ => False                                                  -- exportonly
-  | .finished a w => wantsFile a w = true                                   -- standalone
+  -- standalone: a finished run either writes the file, or (default stand-alone run) shows the result on stdout;
+  -- excluded is only `wantsol=8` without bit 1: nothing at all is reported
+  | .finished a w => wantsFile a w = true ∨ suppressMsg w = false
   | .raised a w st r =>
       r ≠ .foreign ∧                                                          -- foreign
       (st = .options → sc.dims = ⟨0, 0⟩) ∧                                    -- optdims
